@@ -153,3 +153,30 @@ PROPS['C05'] = {
     'technique': 'static analysis: must-pass-through / dominance / data-dependence rules on MIR',
     'assumptions': COMMON_ASSUMPTIONS,
 }
+
+PROPS['C08'] = {
+    'modules': ['c08', 'fattype'],
+    'level': 'other',
+    'quick_configs': ['default'],
+    'thorough_configs': ALL,
+    'controls': [],
+    'floors': {'default': {'X1': 3, 'X2': 4, 'X3': 8, 'X4': 2}},
+    'rule_text': 'obligations: the three FAT-entry classification tables (each over the whole raw-value domain, by '
+                 'partition walk), one per FAT32 entry test (mask), per format constant and byte predicate, the two '
+                 'read-modify-write sites, the skipping rule and the FAT-width table over all 2^32 cluster counts; '
+                 'non-trivial = decided by a partition walk or a dependence query',
+    'explanation': 'Exact decision tables computed from the MIR: for Fat12/16/32::get every raw entry value (all 2^12 / '
+                   '2^16 / 2^28 masked values) is classified exactly as the FAT specification says (free 0, bad ?FF7, '
+                   'end-of-chain ?FF8..?FFF, else data; the FAT32 special-cluster guard may only add Bad); '
+                   'FatType::from_clusters equals the specification for all 2^32 counts; every FAT32 entry test masks the '
+                   'reserved nibble; deleted / end / 0x05 predicates and slot-format constants equal the format; FAT32 set '
+                   'merges the old reserved bits, FAT12 set_raw keeps the neighbour nibble; skipping is deleted || '
+                   '(skip_volume && label). Exhaustive over the value domains (abstract interpretation over the finite '
+                   'partition induced by the compared constants). Does not decide that whole generated volumes are read '
+                   'faithfully.',
+    'claim': 'Exact value-classification tables and format constants versus the FAT specification (independent oracle), '
+             'plus read-modify-write preservation; whole-volume fidelity is not decided.',
+    'level_note': 'the specification tables are transcribed in the rule modules (rules/c08.py, rules/fattype.py)',
+    'technique': 'static analysis: decision-region walk (abstract interpretation over an exact finite partition) on MIR',
+    'assumptions': COMMON_ASSUMPTIONS,
+}
